@@ -13,6 +13,7 @@ import hashlib
 import importlib
 import json
 import os
+import re
 import sys
 import time
 import traceback
@@ -295,6 +296,20 @@ def _run(prop, tier, seed, args, t0):
                 stages['leanchecker'] = {'rc': p.returncode, 'tail': (p.stdout + p.stderr)[-500:]}
                 if p.returncode != 0:
                     broken.append('proof:leanchecker-rejected')
+
+    # 3b. the driver's own imports (a driver may import model or generated modules that no property module imports; in a
+    #     fresh build they would be missing and the model unavailable)
+    if not args.no_build:
+        try:
+            drv_src = open(os.path.join(lean_bridge.LEAN_DIR, mod.DRIVER)).read()
+            drv_imports = [m for m in re.findall(r'^import\s+(HdVerif\.\S+)', drv_src, re.M)]
+            if drv_imports:
+                ok3, out3, _f3, bt3 = lean_bridge.lake_build(drv_imports)
+                stages['driver_imports'] = {'ok': ok3, 'modules': drv_imports, 'seconds': round(bt3, 1)}
+                if not ok3:
+                    stages['driver_imports']['tail'] = out3[-1500:]
+        except OSError:
+            pass
 
     # 4. correspondence + oracle
     scale = 1 if tier == 'quick' else 10
